@@ -12,7 +12,7 @@ import (
 
 // EIDSpec describes an endpoint ID.
 type EIDSpec struct {
-	Kind  string `json:"k"`           // "dtn", "none", "ipn"
+	Kind  string `json:"k"`           // "dtn", "none", "ipn", "raw" (dtn scheme, Demux is the raw SSP text)
 	Node  string `json:"n,omitempty"` // dtn
 	Demux string `json:"d,omitempty"` // dtn
 	N     uint64 `json:"N,omitempty"` // ipn node
@@ -26,6 +26,8 @@ func (e EIDSpec) String() string {
 		return "dtn:none"
 	case "ipn":
 		return fmt.Sprintf("ipn:%d.%d", e.N, e.S)
+	case "raw":
+		return "dtn:" + e.Demux
 	default:
 		return "dtn://" + e.Node + "/" + e.Demux
 	}
@@ -38,6 +40,8 @@ func (e EIDSpec) Encode(enc *Enc) {
 		enc.Arr(2).Uint(1).Uint(0)
 	case "ipn":
 		enc.Arr(2).Uint(2).Arr(2).Uint(e.N).Uint(e.S)
+	case "raw":
+		enc.Arr(2).Uint(1).Tstr(e.Demux)
 	default:
 		enc.Arr(2).Uint(1).Tstr("//" + e.Node + "/" + e.Demux)
 	}
@@ -54,6 +58,8 @@ func (e EIDSpec) Valid() bool {
 		return e.N >= 1 && e.S >= 1
 	case "dtn":
 		return dtnNodeRe.MatchString(e.Node) && !strings.ContainsAny(e.Demux, "\n") && utf8.ValidString(e.Demux)
+	case "raw":
+		return dtnSspRe.MatchString(e.Demux)
 	}
 	return false
 }
@@ -219,6 +225,7 @@ const (
 
 // BundleSpec describes a whole bundle.
 type BundleSpec struct {
+	Ver      *uint64     `json:"version,omitempty"` // nil = 7
 	Flags    uint64      `json:"flags"`
 	CRC      uint64      `json:"crc"`
 	Dst      EIDSpec     `json:"dst"`
@@ -264,7 +271,11 @@ func (s *BundleSpec) EncodePrimary(enc *Enc, nowDtnMs uint64) {
 	if s.CRC != 0 {
 		n++
 	}
-	enc.Arr(n).Uint(7).Uint(s.Flags).Uint(s.CRC)
+	ver := uint64(7)
+	if s.Ver != nil {
+		ver = *s.Ver
+	}
+	enc.Arr(n).Uint(ver).Uint(s.Flags).Uint(s.CRC)
 	s.Dst.Encode(enc)
 	s.Src.Encode(enc)
 	s.Rpt.Encode(enc)
